@@ -1,12 +1,12 @@
 (** Non-vacuity: the hypotheses of the C17 theorems are satisfiable by non-trivial inputs, and the statements
     compute to what one expects on them (tests, not theorems). *)
-From Coq Require Import ZArith List Bool.
+From Coq Require Import ZArith List Bool String.
 From AwkV Require Import Base Layout Valid Types Carry Proofs_C11.
 From AwkTypes Require Import Json Forms TypeStr Typing Proofs_Depth Proofs_Types Proofs_Typing Proofs_Json Proofs_Parse.
 Import ListNotations.
 Open Scope Z_scope.
 
-(* [[{"x": 1, "y": "ab"}, {"x": 2, "y": None}], []] : var * {"x": int64, "y": ?string}, sliced at offset 1 below *)
+(* [[{"x": 1, "y": "ab"}, {"x": 2, "y": None}], []] : var * {"x": int64, "y": option[string]}, sliced at offset 1 below *)
 Definition ex_layout : content :=
   ListOffset I64 [0; 2; 2]
     (Record [Numpy DInt64 [2] [DZ 1; DZ 2];
@@ -25,7 +25,7 @@ Proof. vm_compute. reflexivity. Qed.
 
 Example ex_type_string :
   rmap type_tostring (type_of_form [(s_string, p_string)] (form_of ex_layout)) =
-  Ok (bytes_of_string "var * {""x"": int64, ""y"": ?string}").
+  Ok (bytes_of_string "var * {""x"": int64, ""y"": option[string]}"%string).
 Proof. vm_compute. reflexivity. Qed.
 
 Example ex_typed : exists vs, to_list ex_layout = Ok vs /\ Forall (has_type (type_of ex_layout)) vs.
@@ -61,7 +61,7 @@ Example ex_printable : printable ex_type = true.
 Proof. vm_compute. reflexivity. Qed.
 
 Example ex_print : type_tostring ex_type =
-  bytes_of_string "Pt[""a\""b"": option[var * 3 * int64], ""c"": union[string, ?complex128, (unknown, bytes), {}]]".
+  bytes_of_string "Pt[""a\""b"": option[var * 3 * int64], ""c"": union[string, ?complex128, (unknown, bytes), {}]]"%string.
 Proof. vm_compute. reflexivity. Qed.
 
 Example ex_parse : type_parse (type_tostring ex_type) = Ok ex_type.
